@@ -519,7 +519,9 @@ impl World {
                             self.proj = p;
                         }
                     }
-                    Err(e) => out.harness_error = Some(format!("SeedSnap failed: {e:#}")),
+                    // the model says this client holds a snapshot; if the storage disagrees that is a
+                    // state divergence of the code under test (snapshot properties), not a harness problem
+                    Err(e) => out.violations.push(viol(&["C10", "C11"], "state.snapshot", format!("client {}: the model holds an accepted snapshot but the storage cannot produce it: {e:#}", sid(&cid)))),
                 }
                 return None;
             }
